@@ -38,7 +38,7 @@ def dtype_model(cls, dt):
 
 BAD = {
     "sample_rate": ["plain_number", "wrong_unit", "array", "array1", "zero", "negative", "nan", "none", "complex"],
-    "start_time": ["float_mjd", "array_time", "junk_string", "quantity"],
+    "start_time": ["float_mjd", "array_time", "junk_string", "quantity", "array_time_isot9", "array1_time_isot9"],
     "center_freq": ["plain_number", "wrong_unit", "array", "array1", "none"],
     "chan_bw": ["plain_number", "wrong_unit", "array", "array1", "array11", "zero", "negative", "none", "complex"],
     "freq_align": ["middle", "none", "number", "upper", "nparray0", "nparray1", "list"],
@@ -54,7 +54,10 @@ def bad_value(arg, kind):
                 "nan": float("nan") * u.Hz, "none": None,
                 "complex": (3 + 2j) * u.kHz}[kind]  # "positive" says nothing about a number with an imaginary part (NumPy would order it by its real part)
     if arg == "start_time":
-        return {"float_mjd": 59867.2442234, "array_time": Time([58000.0, 58001.0], format="mjd"), "junk_string": "not a time", "quantity": 5 * u.s}[kind]
+        return {"float_mjd": 59867.2442234, "array_time": Time([58000.0, 58001.0], format="mjd"), "junk_string": "not a time", "quantity": 5 * u.s,
+                # (array-valued Times already in the form the setter normalises to)
+                "array_time_isot9": Time(["2020-01-01T00:00:00", "2020-01-01T00:00:01"], format="isot", precision=9),
+                "array1_time_isot9": Time(["2020-01-01T00:00:00"], format="isot", precision=9)}[kind]
     if arg == "freq_align":
         return {"middle": "middle", "none": None, "number": 1, "upper": "TOP", "nparray0": np.array("bottom"), "nparray1": np.array(["top"]),
                 "list": ["top"]}[kind]
@@ -482,6 +485,46 @@ def run_ops(case, stt):
     stt.label(cls)
 
 
+# -- lazy arrays whose fixed axis has an unknown length ---------------------------------------------------------------------------------
+
+
+def run_unknown(case, stt):
+    """A Dask array may not know one of its lengths yet (boolean-mask indexing, from_delayed with nan).  The fixed axis of a Stokes /
+    dual-polarisation signal must HAVE its length: an unknown one that really is another number cannot pass as 4 (or 2)."""
+    import pulsarbat as pb
+    import dask.array as da
+
+    cls, true_len = case["cls"], case["len"]
+    req = {"FullStokesSignal": 4, "DualPolarizationSignal": 2}[cls]
+    dt = np.float32 if cls == "FullStokesSignal" else np.complex64
+    x = np.zeros((case["n"], case["nchan"], 5), dtype=dt)
+    mask = np.zeros(5, bool)
+    mask[:true_len] = True
+    lazy = da.from_array(x, chunks=(max(1, case["n"]), 1, 5))[:, :, da.from_array(mask, chunks=5)]
+    assert np.isnan(lazy.shape[2])
+    kw = dict(sample_rate=1 * u.kHz, center_freq=1 * u.GHz)
+    if cls == "FullStokesSignal":
+        kw["chan_bw"] = 1 * u.kHz
+    else:
+        kw["pol_type"] = "linear"
+    if true_len != req:
+        must_raise("%s of a lazy array whose %d-long fixed axis says 'unknown'" % (cls, true_len), lambda: getattr(pb, cls)(lazy, **kw), (ValueError,))
+        stt.nt()
+    else:
+        # (the right length, not known yet: accepting or refusing are both defensible -- but an accepted object must compute to the contract)
+        try:
+            z = getattr(pb, cls)(lazy, **kw)
+        except ValueError:
+            stt.label("unknown_but_right_length_refused")
+            return
+        check(np.asarray(z.data).shape[2] == req, "accepted a lazy array of unknown length that computes to {}", np.asarray(z.data).shape)
+    stt.label(cls)
+
+
+unknown_case = st.fixed_dictionaries({"cls": st.sampled_from(["FullStokesSignal", "DualPolarizationSignal"]), "len": st.integers(0, 5),
+                                      "n": st.integers(0, 6), "nchan": st.integers(1, 3)})
+
+
 SUBS = [
     Sub("constructor", ctor_case(), run_ctor,
         "every class x array (NumPy/Dask) of generated shape (valid, too few dims, wrong fixed axis, empty sample shape, 0-d) and dtype (12 "
@@ -498,4 +541,7 @@ SUBS = [
         "objects returned by library operations (stepped slices, index tuples touching fixed/trailing axes with ints/slices/lists/masks/empty "
         "ranges, ufuncs, like with changed arguments, conversions, cropped shifts): each call either refuses or returns an object satisfying "
         "its class contract; non-trivial = a stepped slice or an index on a third axis", quick=3000, thorough=60000, pieces_quick=4),
+    Sub("lazy_unknown_lengths", unknown_case, run_unknown,
+        "FullStokesSignal / DualPolarizationSignal of a Dask array whose fixed axis has an unknown (nan) length that really is 0..5: refused unless "
+        "it is the required 4 / 2; non-trivial = a wrong length", quick=120, thorough=1000),
 ]
